@@ -132,19 +132,26 @@ _inp("C11", "exhaustive enumeration of tie-heavy worlds x segment layouts x sort
 
 # Families added after the seeded-change waves (DESIGN.md §10); appended to the level text.
 EXTRA = {
+  "C04": " With >= 2 handles also two roots with a second live handle whose view is stale, explored to depth 3.",
+  "C09": " Also a multi-block family: every placement pattern of 5-6 padded documents over shapes that give the query terms posting lists of different lengths and block boundaries x bmw_block_size 1-5.",
+  "C11": " Also cursors carried over a delete-only commit (first / last / second segment emptied, first document deleted) under sort plans without _score: rejected, or continued with exactly the surviving documents.",
+  "C19": " Also a long-postings family: 130-300 documents per segment, windows ending at 127-130 and 255-258.",
+  "C27": " Quick also runs scripts with a write-less commit / flush behind an un-awaited commit.",
+  "C28": " Fourth fate of the original: kept open in the same process (live Index, reader, writer) while the copy is used.",
+  "C29": " Every vector-only request also with ef_search 1 and 2.",
   "C03": " Second level (same command): the same BFS on a real filesystem index with every state-changing system call of every operation (open for writing, write, pwrite, ftruncate, fsync, rename, unlink, ... interposed at the libc boundary) failing with EIO before the call or after its effect; same single-fault oracle. Its counts are under coverage.libc_level.",
-  "C07": " Also: bool trees with nested bool under must / should crossed with minimum_should_match.",
+  "C07": " Also: bool trees with nested bool under must / should crossed with minimum_should_match. Also schemas whose search analyzer emits several tokens per position (search-only synonyms, edge_ngram) with a phrase slice over them.",
   "C08": " Also: sparse nested objects (a later object omits a nullable property an earlier one has) next to dense documents in the same segment.",
   "C10": " Also a large-tie sweep: 24-64 documents in 1-3 tie classes x 17 sort plans x 8 query / execution combinations; every page must be a prefix of the covering response.",
   "C12": " Also a gap family: every ordered pair of k-subsets of a value grid in two segments x 13 histogram / date_histogram trees.",
   "C13": " Also custom-scoring queries that drop documents (function_score min_score, script_score returning no value) and a request kind without top_hits.",
-  "C14": " Also a flag matrix: one field (top-level or nested) unstored under every indexed / fast combination; compaction may succeed with nothing observable changed or refuse with nothing changed.",
-  "C15": " Also schema-derived dotted top-level keys (nested paths and field names extended by one or two segments) x 9 JSON value shapes.",
-  "C16": " Also a UTF-8 boundary alphabet (per encoded length: minimal / middle / maximal last byte, first and last code point) as indexed tokens and at every term-expansion site.",
-  "C17": " Also damage under a live Index handle (open and read intact, damage any segment file, reader() again on the same handle); every mutant runs in a worker subprocess.",
-  "C18": " Also rescore variants (window 1-3 x 3 score modes) crossed with collapse, judged against the same rescored request without collapse.",
+  "C14": " Also a flag matrix: one field (top-level or nested) unstored under every indexed / fast combination; compaction may succeed with nothing observable changed or refuse with nothing changed. Also blank / whitespace-only values in multi-valued text and keyword fields with phrase observations across the position gap.",
+  "C15": " Also schema-derived dotted top-level keys (nested paths and field names extended by one or two segments) x 9 JSON value shapes. Thorough: six documents whose stored form exceeds the 32 MiB docstore cap through different places of the document.",
+  "C16": " Also a UTF-8 boundary alphabet (per encoded length: minimal / middle / maximal last byte, first and last code point) as indexed tokens and at every term-expansion site. Also a structural aggregation family (every aggregation type x structural position) and a feature-interaction family (17 request features, every combination with at most 3 - thorough 4 - non-default).",
+  "C17": " Also damage under a live Index handle (open and read intact, damage any segment file, reader() again on the same handle); every mutant runs in a worker subprocess. Also one probe per dictionary entry, an empty-prefix query and a completion suggest over the whole dictionary.",
+  "C18": " Also rescore variants (window 1-3 x 3 score modes) crossed with collapse, judged against the same rescored request without collapse. Also every (request sort, inner_hits sort) pair over all key sequences of length 0..2 (thorough 0..3).",
   "C20": " Also a score-tie sweep: 24-64 documents x 10 sort plans (multi-key, led by _score or by a field) x limit {1,3,5} x the first three pages.",
-  "C22": " Also a multi-byte family (2-, 3-, 4-byte characters at start / middle / end of tokens with ASCII edits next to them) with a completeness oracle on character edit distance.",
+  "C22": " Also a multi-byte family (2-, 3-, 4-byte characters at start / middle / end of tokens with ASCII edits next to them) with a completeness oracle on character edit distance. Also a tie family (six terms sharing a prefix x every doc_freq assignment) with an exact head-of-covering-answer comparison.",
   "C24": " Also an echoed-input family: 119 request locations the server may quote back x names of 1-4 byte characters at every byte phase x a dense length sweep around every power of two up to the body limit.",
   "C25": " Also a body-delivery family: the same /add and /bulk bodies with multi-byte text as Content-Length, as chunked transfer encoding split at every byte offset and with chunk sizes 1-3, and as two socket writes.",
 }
